@@ -491,6 +491,8 @@ package main
 //@   check overflow
 //@   loop 0 invariant startSlot <= slot
 //@   loop 0 decreases ite(slot <= endSlot, slotNum(endSlot - slot) + 1, 0)
+//@   # (S2) every slot of the range is attempted, one by one: the body never moves the cursor (only the loop's own slot++ does)
+//@   loop 0 step slot == athead(slot)
 //@   # (S2) inside the scan loop only errors are returned, so `return nil` means the loop ran past endSlot; a NotFound
 //@   # slot leads to the next slot. Assumed: ctx.Err() is non-nil once ctx.Done() is closed.
 //@   loop 0 returns result != nil
@@ -541,6 +543,8 @@ package main
 //@   loop 3 invariant held(multi.mu) == 0 && validEpochSet(multi) && multi.options != nil
 //@   loop 3 invariant filter == nil || len(filter.AccountInclude) == 0 || !gsfaReadersLoaded
 //@   loop 2 decreases ite(slot <= endSlot, slotNum(endSlot - slot) + 1, 0)
+//@   # (S2) every slot of the range is attempted, one by one: the body never moves the cursor (only the loop's own slot++ does)
+//@   loop 2 step slot == athead(slot)
 //@   # (S2) inside the scan loop only errors are returned: `return nil` happens only after the loop ran past endSlot,
 //@   # in particular a slot without a block (NotFound) must lead to the next slot
 //@   loop 2 returns result != nil
